@@ -295,6 +295,12 @@ class Ctx:
     def note(self, s):
         self.notes.append(s)
 
+    def concrete(self):
+        """context manager: real NumPy inside (build meshes/regions concretely also in sym mode)"""
+        from .npproxy import concrete_mode
+
+        return concrete_mode()
+
 
 def _frac(x):
     if isinstance(x, Fraction):
